@@ -6,7 +6,9 @@ import vlib
 
 class Spec(runner.Spec):
     prop = "C18"
-    streams = [proto_streams.SchemaAgree(), proto_streams.ProtoGen()]
+    streams = [proto_streams.SchemaAgree(), proto_streams.ProtoGen(), proto_streams.ProtoPackage()]
+    # the `package` line and the file name, decided by proof (Proto/Package.lean)
+    extra_prop_files = ["C18Pkg"]
     assumptions = [
         "dev profile; types: the zoo harness/zoo/*.asn1 compiled by the real converter to Rust and, by the same Converter object, to .proto files (Converter::to_protobuf in harness/build.rs)",
         "independent decoder: protoc --decode (libprotoc 3.21.12 in the sandbox) on the unmodified generated files copied to .work/proto_c18/orig; when protoc rejects a file, the definitions it points at are removed from a second copy (.work/proto_c18/usable) so that the remaining messages of that module can still be decoded — the rejection itself is reported by the `proto schema` request of the offending definition",
@@ -15,6 +17,7 @@ class Spec(runner.Spec):
         "the schema model cannot see the declaration order of a SET or the signedness of a 64-bit Rust integer in the descriptor: `proto wire` is not asked for SET types, and u64/i64 is decided by the converter's rule (negative lower bound) — theorem schema_int_encoding_agree shows that this guess is `definition_type_to_protobuf_type` of the Rust type the converter model of C15 (Codegen/IntType.lean) selects, for every constraint with a non-empty root",
         "INTEGER width/sign: the theorem covers every constraint with i64 bounds and a non-empty root; `INTEGER (5..-3, ...)` (a root that contains no value, accepted by the front end) is declared sint64 and written uint64 (example in Props/C18.lean); the zoo has no such type",
         "stream `proto-gen` (exploration level, protoc as oracle): the real generator writes the .proto files of generated module texts (module names with hyphens/digits/Module suffix, object identifiers, names that are proto3 keywords, two modules with imports, random structures from the generator of C09) and protoc must accept every file; rejections inside the listed finding classes are KNOWN-FINDINGs",
+        "`package` line and file name (Props/C18Pkg.lean, stream `proto-package`): names over [A-Za-z0-9_-] (X.680 12.2 plus the underscore; theorem alphabet_is_one_token: each such text without `--` is one tokenizer token); the mirror uses ASCII character predicates, the stream sends ASCII only (the Rust code uses the Unicode predicates; a module name with non-ASCII letters is outside the statement); `FullIdent` is protoc's reading of the proto3 grammar (`_` counts as a letter: theorem strict_reading_differs), the reading the stream `proto-gen` validates files against; an EMPTY package (module `Module`, names of which make_name_nice leaves only `-`/`_`, the empty object identifier `{ }`) is allowed by package_valid / the stream's oracle and refuted as a proto3 line by package_line_valid_false / oid_package_line_valid_false",
         "translation validation, not proof, for the text of the .proto files: the Lean theorem speaks about the schema *model* (Proto/Schema.lean), which is compared with the real files by the `proto wire` requests",
     ]
     def extra_obligations(self, tier):
@@ -30,5 +33,6 @@ class Spec(runner.Spec):
     trusted_base = [
         "Lean 4.33 kernel; axioms per theorem under coverage.theorems",
         "protoc (independent decoder and proto3 validator); tools/proto_streams.py (proto3 subset reader, text-format reader, built-in wire decoder, expected tree from the value)",
-        "hand-written mirrors Proto/Codec.lean, Proto/Schema.lean, Codegen/IntType.lean (asn1rs-model/src/rust.rs; tied to the code by ./check C15); harness/src/proto.rs (ops enc, schema, wire, files), harness/build.rs (to_protobuf), Driver/ProtoStream.lean",
+        "hand-written mirrors Proto/Codec.lean, Proto/Schema.lean, Codegen/IntType.lean (asn1rs-model/src/rust.rs; tied to the code by ./check C15); harness/src/proto.rs (ops enc, schema, wire, files, package, package-fn, istoken), harness/build.rs (to_protobuf), Driver/ProtoStream.lean",
+        "hand-written mirror Proto/Package.lean (generate/protobuf.rs model_name / model_file_name / model_to_package, asn/model.rs make_name_nice, rust.rs rust_module_name via Codegen/Names.lean; tied to the code by the stream proto-package: exact equality on the pipeline of Converter::to_protobuf and on the functions themselves); the proto3 grammar transcribed in Proto/Package.lean (fullIdentGo)",
     ]
